@@ -257,9 +257,24 @@ class TemplateGen:
             local = r.choice([63255, 48255, 1192, 50001, 63001])   # not in any WMO table
             return [206000 + r.choice([1, 7, 8, 13, 24])] + [local]
         if k == '221':
-            n = r.choice([1, 2, 3])
-            body = [r.choice([self.elem(), r.choice(p.lowclass or p.numeric)]) for _ in range(n)]
-            return [221000 + n] + body
+            if r.random() < 0.5:
+                n = r.choice([1, 2, 3])
+                body = [r.choice([self.elem(), r.choice(p.lowclass or p.numeric)]) for _ in range(n)]
+                return [221000 + n] + body
+            # a NON-element descriptor inside the span (every descriptor visited counts, also a sequence, a replication, an
+            # operator and the members below them); the count ends inside or right after it; present elements of a class
+            # that is NOT kept under 221 follow
+            hi = [i for i in p.numeric if i // 1000 >= 10 and i // 1000 != 31] or p.numeric
+            kind = r.choice(['seq', 'rep', 'op'])
+            if kind == 'seq':
+                struct, visited = r.choice([([301011], 4), ([301012], 3), ([301021], 3), ([301023], 3), ([301013], 4)])
+            elif kind == 'rep':
+                struct, visited = [101002, r.choice(hi)], 3
+            else:
+                struct, visited = [201130, r.choice(hi), 201000], 3
+            n = r.choice([1, 2, visited, visited, visited + 1])
+            self.features['op-221-span-with-' + kind] += 1
+            return [221000 + n] + struct + [r.choice(hi), r.choice(hi)]
         raise AssertionError(k)
 
     # -- bitmap constructs (top level only) ----------------------------------
